@@ -25,7 +25,8 @@ type Item struct {
 	Unit     string          `json:"unit"`
 	Prefix   json.RawMessage `json:"prefix,omitempty"`
 	Split    bool            `json:"split"`
-	Deadline int64           `json:"deadline"` // unix nanos
+	Race     bool            `json:"race,omitempty"` // run on a -race worker
+	Deadline int64           `json:"deadline"`       // unix nanos
 }
 
 // Reply is what the worker sends back.
@@ -156,9 +157,13 @@ func RunCheck(prop, tier string) int {
 	perUnit := map[string]*Acc{}
 	unitWall := map[string]int64{}
 	unitItems := map[string]int{}
+	raceUnit := map[string]bool{}
 	for _, u := range units {
 		perUnit[u.Name()] = NewAcc()
-		queue = append(queue, Item{ID: nextID, Prop: prop, Tier: tier, Unit: u.Name(), Split: u.SplitRoot(), Deadline: deadline.UnixNano()})
+		if ru, ok := u.(RaceUnit); ok && ru.UseRace() {
+			raceUnit[u.Name()] = true
+		}
+		queue = append(queue, Item{ID: nextID, Prop: prop, Tier: tier, Unit: u.Name(), Split: u.SplitRoot(), Race: raceUnit[u.Name()], Deadline: deadline.UnixNano()})
 		nextID++
 		pending++
 	}
@@ -170,6 +175,12 @@ func RunCheck(prop, tier string) int {
 	}
 
 	bin, _ := os.Executable()
+	if len(raceUnit) > 0 {
+		if _, err := os.Stat(bin + "-race"); err != nil {
+			fmt.Fprintln(os.Stderr, "HARNESS-ERROR: race build missing:", bin+"-race")
+			return 2
+		}
+	}
 	env := []string{"GOMEMLIMIT=4GiB", "VERIF_DIR=" + dir}
 	// one P per worker: the scheduler is cooperative anyway, and s2 writers then
 	// compress synchronously instead of leaving helper goroutines behind
@@ -179,11 +190,13 @@ func RunCheck(prop, tier string) int {
 		wg.Add(1)
 		go func(w int) {
 			defer wg.Done()
-			var p *proc
+			procs := map[bool]*proc{} // plain and -race worker of this slot
 			defer func() {
-				if p != nil {
-					p.in.Close()
-					p.cmd.Wait()
+				for _, p := range procs {
+					if p != nil {
+						p.in.Close()
+						p.cmd.Wait()
+					}
 				}
 			}()
 			for {
@@ -201,12 +214,20 @@ func RunCheck(prop, tier string) int {
 
 				var rep *Reply
 				var errStr string
+				p := procs[it.Race]
 				if p == nil {
 					var err error
-					wenv := append(append([]string{}, env...), "TMPDIR="+workerTmp(dir, w))
-					if p, err = spawn(bin, prop, tier, wenv); err != nil {
+					tmp := workerTmp(dir, w)
+					wenv := append(append([]string{}, env...), "TMPDIR="+tmp)
+					wbin := bin
+					if it.Race {
+						wbin += "-race"
+						wenv = append(wenv, "GORACE=halt_on_error=0 history_size=3 log_path="+filepath.Join(tmp, "race"), "VERIF_RACE_LOG="+filepath.Join(tmp, "race"))
+					}
+					if p, err = spawn(wbin, prop, tier, wenv); err != nil {
 						errStr = "spawn: " + err.Error()
 					}
+					procs[it.Race] = p
 				}
 				if p != nil {
 					b, _ := json.Marshal(it)
@@ -227,7 +248,7 @@ func RunCheck(prop, tier string) int {
 							errStr = fmt.Sprintf("worker died on unit %s prefix %s: %v", it.Unit, string(it.Prefix), r.err)
 							p.cmd.Process.Kill()
 							p.cmd.Wait()
-							p = nil
+							procs[it.Race] = nil
 						} else {
 							rep = &Reply{}
 							if e := json.Unmarshal(r.line, rep); e != nil {
@@ -239,7 +260,7 @@ func RunCheck(prop, tier string) int {
 						errStr = fmt.Sprintf("worker hung on unit %s prefix %s (killed after deadline+150s)", it.Unit, string(it.Prefix))
 						p.cmd.Process.Kill()
 						p.cmd.Wait()
-						p = nil
+						procs[it.Race] = nil
 					}
 				}
 
@@ -250,7 +271,7 @@ func RunCheck(prop, tier string) int {
 					unitWall[it.Unit] += rep.WallMS
 					unitItems[it.Unit]++
 					for _, ch := range rep.Children {
-						queue = append(queue, Item{ID: nextID, Prop: prop, Tier: tier, Unit: it.Unit, Prefix: ch, Split: false, Deadline: deadline.UnixNano()})
+						queue = append(queue, Item{ID: nextID, Prop: prop, Tier: tier, Unit: it.Unit, Prefix: ch, Split: false, Race: it.Race, Deadline: deadline.UnixNano()})
 						nextID++
 						pending++
 					}
